@@ -464,7 +464,18 @@ func ruleRatioAgreement(c *eng.Ctx) {
 			continue
 		}
 		reads := false
-		for _, h := range eng.Cluster(fn, 2) { // the unit conversion may be a helper of the calculator
+		hosts := eng.Cluster(fn, 2) // the unit conversion may be a helper of the calculator
+		for _, h := range eng.Cluster(fn, 2) {
+			// … or a function picked from a table keyed by the unit
+			for _, ci := range eng.Calls(h, false, func(string, ssa.CallInstruction) bool { return true }) {
+				if eng.StaticCallee(ci) == nil {
+					if gs, _ := eng.DynCallees(ci); len(gs) > 0 {
+						hosts = append(hosts, gs...)
+					}
+				}
+			}
+		}
+		for _, h := range hosts {
 			eng.Instrs(h, false, func(in ssa.Instruction) {
 				if v, ok := in.(ssa.Value); ok {
 					if fr, ok := eng.AsField(v); ok && fr.Field == "TokensPerChar" {
